@@ -22,7 +22,8 @@ Inductive loc :=
 | LBeaconOrder    (* beacon.treasuresByOrder *)
 | LContent        (* treasure.treasure.Content *)
 | LCreatedAt | LCreatedBy | LModifiedAt | LModifiedBy | LExpiration | LDeleted
-| LFlags.         (* contentChanged, ... *)
+| LFlags          (* contentChanged, ... *)
+| LFileName.      (* treasure.treasure.FileName (pointer to the name of the file holding the record) *)
 
 Inductive akind := Rd | Wr.
 
@@ -35,7 +36,7 @@ Definition loc_eqb (a b : loc) : bool :=
   match a, b with
   | LBeaconMap, LBeaconMap | LBeaconOrder, LBeaconOrder | LContent, LContent | LCreatedAt, LCreatedAt
   | LCreatedBy, LCreatedBy | LModifiedAt, LModifiedAt | LModifiedBy, LModifiedBy
-  | LExpiration, LExpiration | LDeleted, LDeleted | LFlags, LFlags => true
+  | LExpiration, LExpiration | LDeleted, LDeleted | LFlags, LFlags | LFileName, LFileName => true
   | _, _ => false
   end.
 Definition is_wr (a : row) : bool := match r_kind a with Wr => true | Rd => false end.
@@ -112,6 +113,11 @@ Definition treasure_rows : list row := [
   R 42 "treasure.GetDeletedAt|GetDeletedBy" LDeleted Rd tmuS;
   R 43 "treasure.Set* (change flags)"    LFlags      Wr guardX;
   R 44 "treasure.Is*Changed (SaveFunction, under the caller's guard)" LFlags Rd ((KGuard, Excl) :: tmuS);
+  (* the file pointer: stored by the chronicler's file-pointer callback on the flushing
+     goroutine (no guard, no t.mu), read through GetFileName by SaveFunction / deleteHandler *)
+  R 45 "treasure.BodySetFileName (swamp.FilePointerCallbackFunction, flush)" LFileName Wr [];
+  R 46 "treasure.GetFileName and its readers (SaveFunction, deleteHandler)" LFileName Rd tmuS;
+  R 47 "treasure.BodySetFileName (SaveFunction, under the caller's guard)" LFileName Wr guardX;
   (* the subscriber callback of Gateway.SubscribeToEvents converts the LIVE record of a
      New/Modified event (treasureToKeyValuePair); it runs on the writer's goroutine inside
      SaveFunction, i.e. while the writer still owns the record guard *)
@@ -135,9 +141,12 @@ Definition table_before_fix : list row := table ++ old_getall_rows.
 
 (* the part of the table whose discipline is sound: the beacon, and the record fields as
    accessed by guard holders only (no lock-free getter) *)
+(* a lock-free access: a getter under t.mu.RLock only, or an access holding no lock at all
+   (the chronicler's file-pointer callback) *)
 Definition is_lockfree_getter (a : row) : bool :=
   match r_kind a, r_locks a with
   | Rd, [(KTreasureMu, Shared)] => true
+  | _, [] => true
   | _, _ => false
   end.
 Definition table_guarded : list row := filter (fun a => negb (is_lockfree_getter a)) table.
